@@ -173,6 +173,13 @@ static void op_eval(struct arg *a, int n, FILE *out) {
 	fputs(" AST", out);
 	dump_expr(out, cl.cl_list[0].expr);
 	writefile(fpath, &a[1]);
+	if (n > 7) {
+		/* <mtime>: give the file an old modification time (and an older access time; the change time is "now") */
+		struct timespec ts[2];
+		ts[1].tv_sec = (time_t)strtoll((const char *)a[7].p, NULL, 10); ts[1].tv_nsec = 0;
+		ts[0].tv_sec = ts[1].tv_sec - 7 * 86400; ts[0].tv_nsec = 0;
+		utimensat(AT_FDCWD, fpath, ts, 0);
+	}
 	dirfd = open(dirpath, O_RDONLY | O_DIRECTORY);
 	msg = message_parse(dirpath, dirfd, (const char *)a[3].p);
 	if (msg == NULL) { fputs(" RES PARSEERR", out); unlink(fpath); return; }
@@ -205,6 +212,20 @@ static void op_eval(struct arg *a, int n, FILE *out) {
 				puthex(out, buf, len);
 				free(buf);
 			}
+		}
+	}
+	if (n > 7) {
+		/* what stat() says about the file now (the evaluator's stat came after the parse as well) and how the real
+		 * time_format() prints each: TIMES <atime> <mtime> <ctime> <hex fmt a> <hex fmt m> <hex fmt c> */
+		struct stat sb;
+		char b[3][64];
+		if (stat(fpath, &sb) == 0) {
+			fprintf(out, " TIMES %lld %lld %lld ", (long long)sb.st_atim.tv_sec, (long long)sb.st_mtim.tv_sec, (long long)sb.st_ctim.tv_sec);
+			hexs(out, time_format(sb.st_atim.tv_sec, b[0], sizeof(b[0])) ? b[0] : "");
+			fputc(' ', out);
+			hexs(out, time_format(sb.st_mtim.tv_sec, b[1], sizeof(b[1])) ? b[1] : "");
+			fputc(' ', out);
+			hexs(out, time_format(sb.st_ctim.tv_sec, b[2], sizeof(b[2])) ? b[2] : "");
 		}
 	}
 	unlink(fpath);
